@@ -147,16 +147,20 @@ def _escape_vc(ctx, L):
              "indication callback may raise any Exception; LinkLayer.send records")
 
     def replay(vals):
-        R, ll, got, patches = build_real(h, vals)
-        if vals.get("upper_layer_raises"):
-            def boom(ind):
-                raise RuntimeError("facility failed on payload")
-            R.indication_callback = boom
+        def boom(ind):
+            raise RuntimeError("facility failed on payload")
         good = _valid_shb()
-        with patches:
-            alive, calls, err = _real_loop_survives([_eth(vals["frame"]), _eth(good)], R)
-        delivered = len(calls) == 2
-        return (not alive) or (not delivered), f"frame {vals['frame'].hex()} -> receive loop {'survived' if alive else 'died with ' + str(err)}; following valid frame {'processed' if delivered else 'NOT processed'}"
+        out = []
+        for dst in (b"\xff" * 6, OWN_MAC):          # broadcast and own-unicast delivery of the bad frame
+            R, ll, got, patches = build_real(h, vals)
+            if vals.get("upper_layer_raises"):
+                R.indication_callback = boom
+            with patches:
+                alive, calls, err = _real_loop_survives([_eth(vals["frame"], dst=dst), _eth(good)], R)
+            delivered = len(calls) == 2
+            out.append(((not alive) or (not delivered), f"frame {vals['frame'].hex()} to {dst.hex()} -> receive loop {'survived' if alive else 'died with ' + str(err)}; following valid frame {'processed' if delivered else 'NOT processed'}"))
+        bad = [o for o in out if o[0]]
+        return (True, bad[0][1]) if bad else (False, out[0][1])
     first_exc = I.raises[0][0] if I.raises else FALSE      # the earliest raise site (cheapest reachability twin)
     ctx.witness(f"L{L}-some-exception-reaches-the-loop", I, first_exc, vars={"frame": pkt})
     bad = z3.Or(*[c for cs in uncaught.values() for c in cs]) if uncaught else FALSE
